@@ -156,6 +156,8 @@ class PassHarness(Harness):
             m1 = _tv.c_module(src)
             m2 = _tv.c_module(src)
         inp = _tv.declare_inputs(mk, m1, entry)
+        if any(True for _ in getattr(m1, "externals", [])):
+            _tv.declare_havoc(mk, inp)
         if self.symconst:
             c1, c2 = _tv.consts_of(m1), _tv.consts_of(m2)
             assert len(c1) == len(c2)
